@@ -381,6 +381,13 @@ func (h *c02h) apply(s *c02state, o c02op, st *report.Stats) (ns *c02state, viol
 		// release time already in the past when registered (matters below the activation block)
 		logs = append(logs, fakechain.IdentityRegistered(syncx.RegistryAddr, c02Set, prefix32(0xd4), sender, syncx.GenesisTime+1))
 		m.Regs = append(m.Regs, c02reg{0xd4, c02Set, syncx.GenesisTime + 1, num})
+	case "regMany":
+		// four registrations in one block, released together with A (one trigger then
+		// carries several identities: sortedness and distinctness are exercised)
+		for i, pb := range []byte{0x71, 0x13, 0xf2, 0x58} {
+			logs = append(logs, fakechain.IdentityRegistered(syncx.RegistryAddr, c02Set, prefix32(pb), sender, c02T1-uint64(i)))
+			m.Regs = append(m.Regs, c02reg{pb, c02Set, c02T1 - uint64(i), num})
+		}
 	case "regOther":
 		logs = append(logs, fakechain.IdentityRegistered(syncx.RegistryAddr, c02OtherSet, prefix32(0xc3), sender, c02T1))
 		m.Regs = append(m.Regs, c02reg{0xc3, c02OtherSet, c02T1, num})
@@ -496,7 +503,7 @@ type c02Replay struct {
 func c02alphabet() []c02op {
 	var ops []c02op
 	for _, dt := range []int64{5, 0, -3} {
-		for _, c := range []string{"none", "regA", "regB", "regE", "regOther", "trig", "hit", "miss"} {
+		for _, c := range []string{"none", "regA", "regB", "regE", "regMany", "regOther", "trig", "hit", "miss"} {
 			ops = append(ops, c02op{"block", dt, c})
 		}
 	}
@@ -516,6 +523,8 @@ func c02seeds() [][]c02op {
 		{{"eon", 0, "start"}, {"eon", 0, "success"}, {"block", 5, "trig"}, {"block", 5, "regA"}},
 		{{"eon", 0, "start"}, {"block", 5, "regA"}, {"block", 5, "trig"}, {"block", 5, "hit"}},
 		{{"eon", 0, "start"}, {"eon", 0, "fail"}, {"eon", 0, "start"}, {"block", 5, "regA"}, {"block", 5, "regOther"}},
+		{{"eon", 0, "start"}, {"block", 5, "regMany"}, {"block", 5, "regA"}, {"block", 5, "regE"}, {"block", 5, "none"}},
+		{{"eon", 0, "start"}, {"eon", 0, "success"}, {"block", 5, "regMany"}, {"block", 5, "regA"}},
 	}
 }
 
